@@ -77,6 +77,12 @@ PROPS = {
         "aspects": TRACE,
         "assumptions": [RAYON, "pool.install runs its closure on a pool worker when called from outside the pool"],
     },
+    "C13": {
+        "statement": "C13_setup_reaches / C13_dispose_reaches / C13_dispose_matches_setup (fan-out, any nesting depth), Scenario.C13_setup_dispose_once, C13_setup_preserves / _creates / _creates_only / _idempotent",
+        "engines": [{"engine": "lifecycle", "args": {}, "quick": {"cases": 200}, "thorough": {"cases": 20000}, "search": {"cases": 5000}}],
+        "aspects": ["lifecycle", "outcome"],
+        "assumptions": ["the world part of the theorems covers the controller data types the harness uses; every system-data type is C06's subject"],
+    },
     "C14": {
         "statement": "C14_panicked_iff, C14_payload_source, C14_dependents_dont_run over PTraces",
         "engines": [trace("flat,base,batch,tl", quick=50, panics=True)],
